@@ -153,7 +153,9 @@ class C17(Property):
               bool(W.choose("useg", 2)),
               # the deprecated spelling of the channels argument
               "nch_kw": ch > 1 and W.chance("nchannels-kw", 1, 4),
-              "rate": W.pick("rate", [None, None, 8000, 22050])}
+              "rate": W.pick("rate", [None, None, 8000, 22050]),
+              # an explicit output device (0 is a valid PortAudio index)
+              "dev": W.pick("dev", [None, None, None, 0, 5])}
       if spec["use_global"]:
         spec["chunk_size"] = gchunk
       specs.append(spec)
@@ -173,7 +175,7 @@ class C17(Property):
       if not any(op[0] == "record" for op in script):
         opts += [(1, "record")]
       elif W.chance("rectake", 1, 2):
-        opts += [(1, "rec_take")]
+        opts += [(1, "rec_take"), (1, "rec_stop")]
       op = W.weighted("op", opts)
       if op == "play":
         new_player()
@@ -184,6 +186,8 @@ class C17(Property):
                                   "dfmt": W.pick("rfmt", ["f", "h"])}])
       elif op == "rec_take":
         script.append(["rec_take", W.span("rn", 1, 6)])
+      elif op == "rec_stop":
+        script.append(["rec_stop", 0])
       else:
         i = W.choose("who", len(specs))
         script.append([op, i])
@@ -322,6 +326,8 @@ class C17(Property):
            wait=True),
       dict(script=[play("list", 1), play("list", 1), play("list", 1)]),
       dict(script=[], ctx="terminate"),
+      dict(script=[["record", {"chunk_size": 2, "dfmt": "f"}],
+                   ["rec_take", 3], ["rec_stop", 0], play("list", 3)]),
       dict(script=[play("list", 9, 2), play("gen", 4)], wait=True,
            ctx="with-exc"),
       dict(script=[["record", {"chunk_size": 2, "dfmt": "f"}],
@@ -443,6 +449,8 @@ class C17(Property):
             spec["channels"]
           if spec.get("rate"):
             kw["rate"] = spec["rate"]
+          if spec.get("dev") is not None:
+            kw["output_device_index"] = spec["dev"]
           if not spec.get("use_global"):
             kw["chunk_size"] = spec["chunk_size"]
           ctl["players"].append(None)
@@ -453,9 +461,15 @@ class C17(Property):
                            dfmt=op[1]["dfmt"])
           ctl["rec"].append(rec)
         elif name == "rec_take":
-          if ctl["rec"]:
+          if ctl["rec"] and not ctl.get("rec_stopped"):
             got = ctl["rec"][0].take(op[1])
             outcome.setdefault("rec_taken", []).extend(got)
+        elif name == "rec_stop":
+          # the user stops a recording without reading it to its end
+          if ctl["rec"]:
+            ctl["rec"][0].stop()
+            ctl["rec_stopped"] = True
+            res.counters["probe.recording-stopped-before-close"] += 1
         else:
           th = ctl["players"][op[1]]
           if name == "pause":
@@ -670,6 +684,8 @@ class C17(Property):
       dev_ch = okw.get("channels")
       want_rate = spec.get("rate") or 44100
       want_dev = 3 if workload.get("api") else None   # fake JACK's default
+      if spec.get("dev") is not None:
+        want_dev = spec["dev"]                        # explicit index wins
       if dev_fmt != fmt or dev_ch != ch or not okw.get("output") or \
          okw.get("frames_per_buffer") != cs or okw.get("input") or \
          okw.get("rate") != want_rate or \
